@@ -144,33 +144,10 @@ Definition C19_try_from_u128_full : Prop := forall N v, N <> 0%nat -> 0 <= v < 2
   (u32s_fits N v -> exists r, u32s_try_from_u128 N v = Done r /\ u32s_wf N r /\ u32s_value r = v) /\
   (~ u32s_fits N v -> u32s_try_from_u128 N v = Rej).
 
-(* ======================================================================================== [CURRENT] begin *)
-(* ... is REFUTED on the pinned tree by the faithful model (finding key u32s3-tryfrom-u128-bound): *)
-Theorem C19_try_from_u128_refuted :
-  exists v, 0 <= v < 2 ^ 128 /\ u32s_fits 3 v /\ u32s_try_from_u128 3 v = Rej.
-Proof. exact try_from_u128_refuted_now. Qed.
-Print Assumptions C19_try_from_u128_refuted.
 
-(* exact extent of the defect: everything strictly between u64::MAX * u32::MAX and 2^96 *)
-Theorem C19_try_from_u128_gap : forall v, 18446744073709551615 * 4294967295 < v < 2 ^ 96 ->
-  u32s_fits 3 v /\ u32s_try_from_u128 3 v = Rej.
-Proof. exact try_from_u128_gap_now. Qed.
-Print Assumptions C19_try_from_u128_gap.
-
-(* what does hold today: exact for every N >= 1 and every v outside that gap *)
-Theorem C19_try_from_u128_partial : forall N v, N <> 0%nat -> 0 <= v < 2 ^ 128 ->
-  (N = 3%nat -> v <= 18446744073709551615 * 4294967295 \/ 2 ^ 96 <= v) ->
-  (u32s_fits N v -> exists r, u32s_try_from_u128 N v = Done r /\ u32s_wf N r /\ u32s_value r = v) /\
-  (~ u32s_fits N v -> u32s_try_from_u128 N v = Rej).
-Proof. exact try_from_u128_spec_now. Qed.
-Print Assumptions C19_try_from_u128_partial.
-(* ======================================================================================== [CURRENT] end *)
-
-(* ======================================================================================== [FIXED] begin
-  Theorem C19_try_from_u128 : C19_try_from_u128_full.
-  Proof. exact try_from_u128_spec. Qed.
-  Print Assumptions C19_try_from_u128.
-   ======================================================================================== [FIXED] end *)
+Theorem C19_try_from_u128 : C19_try_from_u128_full.
+Proof. exact try_from_u128_spec. Qed.
+Print Assumptions C19_try_from_u128.
 
 (* width 0 (finding key u32s0-tryfrom-zero, recorded, not repaired): 0 is the one value of U32s<0>, yet TryFrom rejects
    it and From<u32> panics; hence the hypothesis N <> 0 in the conversion theorems above *)
